@@ -221,8 +221,11 @@ class Gen(object):
                     env.ints.append(((pn,), 255))
                 st.params.append((pn, pt))
             self.features.add("parameters")
-        if r.random() < 0.2:
-            st.default_byte_order = r.choice(["LittleEndian", "BigEndian"])
+        if r.random() < 0.3:
+            # mostly the opposite of the module's default: a default that leaks between scopes
+            # is only observable when the two differ
+            other = "BigEndian" if self.module.default_byte_order == "LittleEndian" else "LittleEndian"
+            st.default_byte_order = other if r.random() < 0.75 else r.choice(["LittleEndian", "BigEndian"])
             self.features.add("struct-default-byte-order")
         nfields = r.randrange(2, 9)
         cursor = 0  # static cursor, or None once layout became dynamic
@@ -299,6 +302,36 @@ class Gen(object):
             # register the field for later expressions (only unconditional-or-not: any; refs to
             # absent fields simply evaluate to unknown)
             self.register(env, f)
+        # a "switch" block: several fields guarded by `tag == constant` with repeated
+        # constants (the back end groups these into one switch in Ok(); fields three
+        # and later of one case, reversed operands and interleaved other conditions are
+        # the interesting shapes), whose members can be present but not Ok
+        tags = [f for f in st.fields if not f.is_virtual and not f.is_anon and f.cond is None and f.typ is not None and not f.typ.dims and f.typ.kind == "UInt" and f.typ.bits == 8 and f.start[0] == "n" and f.requires is None]
+        if tags and r.random() < 0.45:
+            tag = r.choice(tags)
+            base = cursor if cursor is not None else 24
+            c1, c2 = r.sample([0, 1, 2, 3, 4, 5], 2)
+            for j in range(r.randrange(3, 7)):
+                c = c1 if r.random() < 0.7 else c2
+                kk = r.random()
+                if kk < 0.75:
+                    cond = ("op", "==", ("r", (tag.name,)), ("n", c)) if r.random() < 0.8 else ("op", "==", ("n", c), ("r", (tag.name,)))
+                elif kk < 0.9:
+                    cond = ("op", r.choice(["!=", "<", ">="]), ("r", (tag.name,)), ("n", c))
+                else:
+                    cond = None
+                kind = r.choice(["Bcd", "UInt", "UInt", "Int"])
+                f = M.Field(self.name("f"), ("n", base + (j if r.random() < 0.8 else 0)), ("n", 1), M.Type(kind, 8))
+                if kind != "Bcd" and r.random() < 0.85:
+                    # only requirements that some byte value violates and some satisfies
+                    f.requires = ("op", r.choice(["<", "<=", "!=", ">="]), ("r", ("this",)), ("n", r.choice([1, 5, 100, 200]) if kind == "UInt" else r.choice([-1, 0, 5, 100])))
+                f.cond = cond
+                f.end_max = base + 8
+                st.fields.append(f)
+                self.register(env, f)
+            self.features.add("switch-block")
+            self.features.add("conditional")
+            self.features.add("requires")
         # virtual fields at the boundaries of the C++ integer types: the back end
         # picks int32/uint32/int64/uint64 from the inferred range
         wide = []
@@ -318,6 +351,38 @@ class Gen(object):
                 st.fields.append(v)
                 env.all_fields.append(v.name)
                 self.features.add("boundary-virtual")
+        # wide arithmetic: sums, differences and products of multi-byte fields whose operands fit a
+        # narrower C++ type than the result (the back end must compute in the result's type)
+        ints = []
+        for f in st.fields:
+            for g in [f] + (f.anon or []):
+                t = g.typ
+                if t is not None and not g.is_virtual and not t.dims and t.kind in ("UInt", "Int") and t.bits and g.requires is None and (g is f or f.cond is None):
+                    lo, hi = (0, 2**t.bits - 1) if t.kind == "UInt" else (-(2 ** (t.bits - 1)), 2 ** (t.bits - 1) - 1)
+                    ints.append((g, lo, hi))
+        if len(ints) >= 2 and r.random() < 0.5:
+            for _ in range(r.choice([1, 2, 3])):
+                (a, alo, ahi), (b, blo, bhi) = r.sample(ints, 2)
+                op = r.choice(["*", "*", "+", "-"])
+                if op == "*":
+                    corners = [alo * blo, alo * bhi, ahi * blo, ahi * bhi]
+                elif op == "+":
+                    corners = [alo + blo, ahi + bhi]
+                else:
+                    corners = [alo - bhi, ahi - blo]
+                lo, hi = min(corners), max(corners)
+                # the compiler's 64-bit gate: operands and result fit int64 together, or uint64 together
+                fits_signed = lo >= -(2**63) and hi <= 2**63 - 1 and ahi <= 2**63 - 1 and bhi <= 2**63 - 1
+                fits_unsigned = lo >= 0 and hi <= 2**64 - 1 and alo >= 0 and blo >= 0
+                if not (fits_signed or fits_unsigned):
+                    continue
+                v = M.Field(self.name("v"), value=("op", op, ("r", (a.name,)), ("r", (b.name,))))
+                # exists exactly when both operands exist (an absent operand makes the value unknown anyway)
+                conds = [x.cond for x in (a, b) if x.cond is not None]
+                v.cond = conds[0] if len(conds) == 1 else (("op", "&&", conds[0], conds[1]) if conds else None)
+                st.fields.append(v)
+                env.all_fields.append(v.name)
+                self.features.add("wide-arithmetic")
         if r.random() < 0.25:
             c = r.choice([2**31 - 1, 2**31, 2**32 - 1, 2**32, 2**63 - 1, 2**63, 2**64 - 1, -(2**31), -(2**31) - 1, -(2**63)])
             v = M.Field(self.name("v"), value=("n", c))
